@@ -102,6 +102,14 @@ func (r *Run) execSnapshot(t *Task, idx int, tx *TxPlan) {
 	switch tx.Arg {
 	case "file":
 		path := fmt.Sprintf("%s/snap-%d", r.dir, len(r.snaps))
+		if len(tx.Args) > 0 {
+			switch tx.Args[0] {
+			case "same":
+				path = r.dir + "/snap-same"
+			case "template":
+				path = "__DB_DIR__/snap-of-__DB_FILE__-DATE-TIME"
+			}
+		}
 		actual, id, err := r.db.Snapshot(path)
 		if err != nil {
 			r.snapViolation("snapshot-error", "Snapshot(%s) failed: %v", path, err)
